@@ -54,9 +54,51 @@ def _inject_hand_domains(R):
         W.attr(A.CRYPTOGRAPHIC_PARAMETERS, {'block_cipher_mode': enums.BlockCipherMode.CBC}),
         W.attr('x-custom', 'v'),
     ]
+    # a second, different value for every attribute type the library can build, and the attribute
+    # types the first list lacks (dates, flags, lengths, Digest): pairs of same-named attributes with
+    # different values are what shows one decoded value overwriting another
+    from kmip.core import attributes as cattr_mod, objects as cobj_mod
+    E_ = enums
+    second = {
+        A.NAME: ('m', 1), A.CRYPTOGRAPHIC_ALGORITHM: (E_.CryptographicAlgorithm.RSA, None),
+        A.CRYPTOGRAPHIC_LENGTH: (256, None), A.CRYPTOGRAPHIC_USAGE_MASK: ([W.CUM.SIGN, W.CUM.VERIFY], None),
+        A.OBJECT_GROUP: ('h', 0), A.SENSITIVE: (True, None),
+        A.APPLICATION_SPECIFIC_INFORMATION: ({"application_namespace": "ns2", "application_data": "e"}, 1),
+        A.OPERATION_POLICY_NAME: ('public', None), A.STATE: (E_.State.COMPROMISED, None),
+        A.INITIAL_DATE: (1700000000, None), A.OBJECT_TYPE: (E_.ObjectType.SECRET_DATA, None),
+        A.UNIQUE_IDENTIFIER: ('22', None), A.CERTIFICATE_TYPE: (E_.CertificateType.PGP, None),
+        A.CONTACT_INFORMATION: ('you', None), A.LEASE_TIME: (3600, None),
+        A.CRYPTOGRAPHIC_PARAMETERS: ({'block_cipher_mode': E_.BlockCipherMode.GCM, 'tag_length': 12}, None),
+    }
+    more = []
+    for at, (v2, idx) in second.items():
+        try:
+            more.append(W.attr(at, v2, idx))
+        except Exception:   # noqa
+            pass
+    for at in (A.ACTIVATION_DATE, A.PROCESS_START_DATE, A.PROTECT_STOP_DATE, A.DEACTIVATION_DATE,
+               A.DESTROY_DATE, A.COMPROMISE_OCCURRENCE_DATE, A.COMPROMISE_DATE, A.ARCHIVE_DATE,
+               A.LAST_CHANGE_DATE, A.ORIGINAL_CREATION_DATE):
+        for v_ in (5, 1700000000):
+            more.append(W.attr(at, v_))
+    for at in (A.FRESH, A.ALWAYS_SENSITIVE, A.EXTRACTABLE, A.NEVER_EXTRACTABLE):
+        for v_ in (False, True):
+            more.append(W.attr(at, v_))
+    for v_ in (0, 1024):
+        more.append(W.attr(A.CERTIFICATE_LENGTH, v_))
+    more.append(W.attr('x-custom', 'w'))
+    digests = []
+    for h_, dv, kf in ((E_.HashingAlgorithm.SHA_256, b'\x01' * 32, E_.KeyFormatType.RAW),
+                       (E_.HashingAlgorithm.MD5, b'\x5a' * 16, E_.KeyFormatType.PKCS_1)):
+        digests.append(cobj_mod.Attribute(
+            attribute_name=cobj_mod.Attribute.AttributeName('Digest'),
+            attribute_value=cattr_mod.Digest.create(h_, dv, kf)))
+    more += digests
     vals = [a.attribute_value for a in attrs]
     R.domains[('Attribute', 'attribute_value')] = [None] + vals
-    lists = [[attrs[0]], [attrs[1], attrs[2]], attrs[:5], [], [attrs[5]], [attrs[7]], attrs[8:13]]
+    lists = [[attrs[0]], [attrs[1], attrs[2]], attrs[:5], [], [attrs[5]], [attrs[7]], attrs[8:13],
+             [attrs[0], more[0]], digests, [more[1], attrs[1]], [digests[1], attrs[0], digests[0]]]
+    attrs = attrs + more
     for c in ('TemplateAttribute', 'CommonTemplateAttribute', 'PrivateKeyTemplateAttribute',
               'PublicKeyTemplateAttribute'):
         R.domains[(c, 'attributes')] = [None] + lists
@@ -99,9 +141,29 @@ def fresh_reader(cls, obj, base_kwargs):
     return cls(**kw)
 
 
+_PREV = {}      # (class, version) -> (decoded object, its bytes): the value decoded just before
+
+
+def _prev_changed(cls, kv, r, b):
+    """Decoding a value must not change the value decoded before it. Returns a description of the
+    previous value's change, or None; then remembers (r, b) as the new previous value."""
+    out = None
+    prev = _PREV.get((cls, kv))
+    if prev is not None and prev[1] != b:
+        try:
+            again = shapes.encode(prev[0], kv)
+        except Exception as e:   # noqa
+            again = None
+        if again != prev[1]:
+            out = "the value decoded just before (%s...) re-encodes to %s after this decode" % (
+                prev[1].hex()[:40], again.hex()[:40] if again is not None else 'an error')
+    _PREV[(cls, kv)] = (r, b)
+    return out
+
+
 def roundtrip(cls, obj, base_kwargs, kv, kwargs=None, wire_ok=()):
     """Returns (status, detail, bytes). status in: refused, ok, decode-fails, not-equal,
-    reencode-differs, reencode-fails."""
+    reencode-differs, reencode-fails, aliased."""
     try:
         b = shapes.encode(obj, kv)
     except shapes.Runaway:
@@ -121,6 +183,9 @@ def roundtrip(cls, obj, base_kwargs, kv, kwargs=None, wire_ok=()):
         return 'reencode-fails', '%s: %s' % (type(e).__name__, str(e)[:100]), b
     if b2 != b:
         return 'reencode-differs', '%s vs %s' % (b.hex()[:80], b2.hex()[:80]), b
+    changed = _prev_changed(cls, kv, r, b)
+    if changed:
+        return 'aliased', changed, b
     if own_eq(cls):
         try:
             eq = (r == obj)
@@ -278,7 +343,7 @@ def check_class(name, part, sweep):
                 statuses[kv] = (st, detail, b)
             part.count('status_' + st)
             part.counters.setdefault('_out', set()).add((name, st))
-            if st in ('decode-fails', 'not-equal', 'reencode-differs', 'reencode-fails'):
+            if st in ('decode-fails', 'not-equal', 'reencode-differs', 'reencode-fails', 'aliased'):
                 part.violation("%s|%s|%s" % (name, st, _pkey(label, kw, base)),
                                "%s(%s) under KMIP %s: %s (%s)" % (
                                    name, ', '.join('%s=%s' % (p, shapes.describe(kw[p]))
@@ -715,6 +780,29 @@ def structure_names():
 def check_hand_attributes(part):
     R = registry()
     from kmip.core import objects as cobjects
+    # decoding one value must not change a value decoded before (decoded values sharing state)
+    for kv in KV:
+        decoded = []
+        for a in R.hand_attrs:
+            try:
+                b = shapes.encode(a, kv)
+                r = cobjects.Attribute()
+                r.read(cutils.BytearrayStream(b), kmip_version=kv)
+            except Exception:   # noqa - judged by the round trip below
+                continue
+            decoded.append((a, b, r))
+        for a, b, r in decoded:
+            part.count('aliasing_checks')
+            try:
+                again = shapes.encode(r, kv)
+            except Exception as e:   # noqa
+                again = repr(e).encode()
+            if again != b:
+                part.violation("Attribute|decoded-value-changed-later|%s" % a.attribute_name,
+                               "Attribute(%s) under KMIP %s: the value decoded from %s re-encodes to %s after "
+                               "OTHER attributes were decoded" % (a.attribute_name, VNAME[kv], b.hex()[:60],
+                                                                  again.hex()[:60]),
+                               {'attribute': str(a.attribute_name), 'aliasing': True})
     for a in R.hand_attrs:
         for kv in KV:
             st, detail, b = roundtrip(cobjects.Attribute, a, {}, kv)
